@@ -463,7 +463,17 @@ def run(ctx):
             keyt = re.search(r"\.args\[(.*)\]$", Xp(lhs))
             rt = Xp(rhs)
             ok_ = keyt is not None and re.match(r"^(elem\(.*\)|.*)\.asString\(\)$", rt) is not None and ("[%s]" % keyt.group(1)) in rt
-            ctx.check(ok_, "json:arg-text-is-the-json-scalar:" + f.d.get("ret", "")[-20:], "provenance", f.loc(i),
+            kind_ = "provenance"
+            if not ok_ and keyt is not None:
+                # the value may pass through a helper: follow it - every value the helper returns has to be its argument's asString()
+                cn_ = f.nodes[f.strip(rhs)]
+                hs_ = [P.fns[u] for u in P.resolve(cn_.get("cusr", "")) if u in P.fns] if cn_["k"] == "call" and cn_.get("cusr") else []
+                if len({(h_.pq, h_.line) for h_ in hs_}) == 1 and len(hs_[0].params) == 1 and len(cn_.get("args", [])) == 1 and hs_[0].file.startswith("oomd/"):
+                    h_ = hs_[0]
+                    kind_ = "provenance (helpers followed)"
+                    vals_ = [Expander(P, h_)(h_.nodes[r_]["val"]) for r_ in returns(h_) if "val" in h_.nodes[r_]]
+                    ok_ = bool(vals_) and all(v_ == "param:%s.asString()" % h_.params[0]["name"] for v_ in vals_) and ("[%s]" % keyt.group(1)) in Xp(cn_["args"][0])
+            ctx.check(ok_, "json:arg-text-is-the-json-scalar:" + f.d.get("ret", "")[-20:], kind_, f.loc(i),
                       "args[key] = json_args[key].asString(): the value reaches the plugin as jsoncpp renders it (64-bit integers exactly, reals round-trip)",
                       "args[%s] is assigned %s instead of the JSON value's own asString(): numbers can be re-formatted with fewer digits (a byte count "
                       "written as a real, a ratio with 7+ significant digits) before the plugin parses them" % (keyt.group(1) if keyt else "?", rt[:100]))
